@@ -126,7 +126,11 @@ class BroadcastTo(ArrayExpr):
             input_axis,
             shuffle_expr.operand("name"),
         )
-        return BroadcastTo(shuffled_input, self._shape, self._chunks, self._meta)
+        # A take-style indexer changes the extent and chunking of the axis.
+        new_chunks = shuffled_input.chunks[input_axis]
+        shape = tuple(sum(new_chunks) if i == axis else s for i, s in enumerate(self._shape))
+        chunks = tuple(new_chunks if i == axis else c for i, c in enumerate(self._chunks))
+        return BroadcastTo(shuffled_input, shape, chunks, self._meta)
 
     def _accept_slice(self, slice_expr):
         """Accept a slice being pushed through BroadcastTo.
